@@ -82,6 +82,11 @@ Bases ==
               C("struct", "x", "point", "", <<F("a", "int"), F("b", "int")>>, NoRes, TRUE),
               \* TL2 functions must carry a magic
               [C("func", "x", "getPoint", "", <<F("id", "int")>>, [k |-> "int", a |-> 0], TRUE) EXCEPT !.tag = [k |-> "fresh", a |-> 4, b |-> 0]] >>,
+    \* a TL2 function with a magic declared BEFORE a TL2 type and another TL2 function (which may copy it)
+    b5 |-> << C("struct", "a", "foo", "Foo", <<F("x", "int")>>, NoRes, FALSE),
+              [C("func", "x", "getPoint", "", <<F("id", "int")>>, [k |-> "int", a |-> 0], TRUE) EXCEPT !.tag = [k |-> "fresh", a |-> 2, b |-> 0]],
+              C("struct", "x", "point", "", <<F("a", "int"), F("b", "int")>>, NoRes, TRUE),
+              C("struct", "x", "size", "", <<F("w", "int")>>, NoRes, TRUE) >>,
     b4 |-> << C("variant", "", "shapeCircle", "Shape", <<F("r", "int")>>, NoRes, FALSE),
               C("variant", "", "shapeSquare", "Shape", <<F("s", "long")>>, NoRes, FALSE),
               C("struct", "b", "item", "Item", <<F("x", "string")>>, NoRes, FALSE),
